@@ -167,7 +167,7 @@ type dotParser struct {
 }
 
 func (p *dotParser) peek() DotTok { return p.t[p.p] }
-func (p *dotParser) next() DotTok  { t := p.t[p.p]; p.p++; return t }
+func (p *dotParser) next() DotTok { t := p.t[p.p]; p.p++; return t }
 func (p *dotParser) isPunct(s string) bool {
 	return p.peek().Kind == "punct" && p.peek().Text == s
 }
